@@ -82,6 +82,8 @@ def verify_function(reg, qual, prop):
         for name, r in clause_items(spec.requires):
             ctx.assume(st, ex.eval_spec(r, st))
         old.heap = dict(st.heap)
+        if spec.cases:
+            ctx.case_conds = [(cn, ex.eval_spec(ct, old)) for cn, ct in spec.cases.items()]
         body_state = st.copy()
         ex.old_state = old
         # heap arrays created lazily after this point must be shared with `old`
@@ -109,9 +111,15 @@ def verify_function(reg, qual, prop):
                 cl = ex.eval_spec(hnt, final)
                 ctx.oblige(final, "hint%s" % j, cl, "hint", fi.node.lineno)
                 ctx.assume(final, cl)
+            cases = [(None, TRUE)]
+            if spec.cases:
+                cases = [(cn, ex.eval_spec(ct, old)) for cn, ct in spec.cases.items()]
+                ctx.oblige(final, "post:cases-exhaustive", or_(*[c for _, c in cases]), "post", fi.node.lineno)
             for name, e in clause_items(spec.ensures):
                 cl = ex.eval_spec(e, final)
-                ctx.oblige(final, "post%s" % (name if name.startswith("#") else ":" + name), cl, "post", fi.node.lineno)
+                for cn, cc in cases:
+                    ctx.oblige(final, "post%s%s" % (name if name.startswith("#") else ":" + name, "[%s]" % cn if cn else ""),
+                               implies(cc, cl), "post", fi.node.lineno)
             # frame: what the contract does not list as modified is proved unchanged
             a0 = z3.Int("alloc0")
             for key in sorted(set(final.heap) | set(old.heap)):
@@ -174,46 +182,131 @@ def decl_names(expr, cache):
     return out
 
 
+def ground_sqrt(body):
+    """Replace every ground application sqrt(t) by a fresh real s with  t >= 0 -> (s >= 0 and s*s == t):
+    an instance of the trusted sqrt contract, which keeps the obligation quantifier-free."""
+    apps = {}
+    bound = [False]
+
+    def collect(e, seen):
+        todo = [e]
+        while todo:
+            x = todo.pop()
+            i = x.get_id()
+            if i in seen:
+                continue
+            seen.add(i)
+            if z3.is_quantifier(x):
+                if "sqrt" in x.body().sexpr():
+                    bound[0] = True
+                continue
+            if z3.is_app(x):
+                if x.decl().kind() == z3.Z3_OP_UNINTERPRETED and x.decl().name() == "sqrt":
+                    apps[i] = x
+                todo.extend(x.children())
+    seen = set()
+    for b in body:
+        collect(b, seen)
+    if not apps:
+        return body, [], bound[0]
+    # innermost first so that nested sqrt terms are replaced consistently
+    order = sorted(apps.values(), key=lambda a: len(a.sexpr()))
+    subs, defs = [], []
+    for a in order:
+        arg = z3.substitute(a.arg(0), *subs) if subs else a.arg(0)
+        sv = z3.Real(uid("sqrtv"))
+        defs.append(z3.Implies(arg >= 0, z3.And(sv >= 0, sv * sv == arg)))
+        subs.append((a, sv))
+    body = [z3.substitute(b, *subs) for b in body]
+    return body, defs, bound[0]
+
+
 def package(reg, ctx, res):
-    """Turn obligations into self-contained SMT-LIB benchmarks (negated VC)."""
+    """Turn obligations into self-contained SMT-LIB benchmarks (negated VC).
+
+    Two texts per obligation: `smt2` holds every hypothesis; `smt2_rel` leaves out the *definitional*
+    hypotheses (named quotients/floors/square roots, results of contracted calls) whose defined symbol is not
+    reachable from the goal.  Dropping hypotheses is sound for `unsat`; the full text decides `sat`."""
     axioms_always = strings.axioms() if strings._intern else []
     math_ax = mathlib.axioms(ctx.math_used)
+    sym_cache = {}
+
+    def syms(e):
+        k = e.get_id()
+        if k not in sym_cache:
+            sym_cache[k] = (decl_names(e, set()), e)
+        return sym_cache[k][0]
+
     for o in ctx.obls:
-        hyps = ctx.hyps[:o.hyps]
         goal = z3.Not(o.claim)
-        s = z3.Solver()
-        body = hyps + [o.pc, goal]
-        seen = set()
-        names = set()
-        for b in body:
-            names |= decl_names(b, seen)
-        used_ax = []
-        # spec-function axioms: include those whose symbol occurs (transitively)
-        changed = o.kind != "cover"     # covers: satisfiability of hypotheses + path, axioms left out
-        included = set()
-        while changed:
+        hyps = ctx.hyps[:o.hyps]
+        # relevance filter
+        cone = set(syms(goal)) | set(syms(o.pc))
+        always, pending = [], []
+        for i, h in enumerate(hyps):
+            d = ctx.hyp_defs.get(i)
+            if d is None:
+                always.append(h)
+                cone |= syms(h)
+            else:
+                pending.append((d, h))
+        chosen = []
+        changed = True
+        while changed and pending:
             changed = False
-            for tag, provider in reg.axioms:
-                if tag in included:
-                    continue
-                if tag in names or tag == "*":
-                    included.add(tag)
-                    axs = provider()
-                    used_ax += axs
-                    for a in axs:
-                        names |= decl_names(a, seen)
+            rest = []
+            for d, h in pending:
+                if d & cone:
+                    chosen.append(h)
+                    cone |= syms(h)
                     changed = True
-        if any(n in names for n in ("hashname", "first_is_hash", "str_of_int")) or True:
-            strax = [a for a in axioms_always if decl_names(a, set()) & names or True]
-        for a in used_ax:
-            s.add(a)
-        if names & {"hashname", "first_is_hash"}:
-            for a in axioms_always:
+                else:
+                    rest.append((d, h))
+            pending = rest
+        variants = [("smt2", hyps)]
+        if pending:
+            variants.append(("smt2_rel", always + chosen))
+        rec = dict(name=o.name, kind=o.kind, carry=o.carry, line=o.line)
+        for key, hs in variants:
+            s = z3.Solver()
+            body = hs + [o.pc, goal]
+            seen = set()
+            names = set()
+            for b in body:
+                names |= decl_names(b, seen)
+            used_ax = []
+            changed = o.kind != "cover"     # covers: satisfiability of hypotheses + path, axioms left out
+            included = set()
+            while changed:
+                changed = False
+                for tag, provider in reg.axioms:
+                    if tag in included:
+                        continue
+                    if tag in names or tag == "*":
+                        included.add(tag)
+                        axs = provider()
+                        used_ax += axs
+                        for a in axs:
+                            names |= decl_names(a, seen)
+                        changed = True
+            for a in used_ax:
                 s.add(a)
-        for a in math_ax:
-            if decl_names(a, set()) & names:
-                s.add(a)
-        for b in body:
-            s.add(b)
-        res.obligations.append(dict(name=o.name, kind=o.kind, carry=o.carry, line=o.line,
-                                    smt2=s.to_smt2(), axioms=sorted(included)))
+            if names & {"hashname", "first_is_hash"}:
+                for a in axioms_always:
+                    s.add(a)
+            body, sq_defs, has_bound_sqrt = ground_sqrt(body)
+            for a in math_ax:
+                dn = decl_names(a, set())
+                if "sqrt" in dn and not has_bound_sqrt:
+                    continue
+                if o.kind == "cover":
+                    continue
+                if dn & names:
+                    s.add(a)
+            for d in sq_defs:
+                s.add(d)
+            for b in body:
+                s.add(b)
+            rec[key] = s.to_smt2()
+            rec["axioms"] = sorted(included)
+        res.obligations.append(rec)
